@@ -175,8 +175,25 @@ def probe(model, where):
         del w
         if not A.flags.writeable:
             raise Mismatch(where, "array still locked after its only graph was dropped")
+        pg = FIX.pool.pop().grad
+        if pg is None or not np.array_equal(pg, FIX.vb.grad[1:]):
+            raise Mismatch(where, "gradient of a view recorded earlier reads %r" % (pg,))
+        check(model, where)
         return
     # ---- no_autodiff clause
+    # a view recorded while tracking, whose gradient is materialised here for the first time (the library replays the view
+    # op on the base's gradient inside a scope of its own, which must hand the switches back as it found them)
+    pv = FIX.pool.pop()
+    pg = pv.grad
+    if pg is None or not np.array_equal(pg, FIX.vb.grad[1:]):
+        raise Mismatch(where, "gradient of a view recorded earlier reads %r under no_autodiff" % (pg,))
+    check(model, where)
+    for fn, ref in FIX.battery:
+        r = fn()
+        if r.dtype != ref.dtype or not np.array_equal(r.data, ref.data, equal_nan=True):
+            raise Mismatch(where, "value/dtype under no_autodiff differs from the tracked run: %s %s vs %s %s" % (r.dtype, r.data, ref.dtype, ref.data))
+        if r.creator is not None or r.base is not None:
+            raise Mismatch(where, "result records a creator or base under no_autodiff")
     x = FIX.x
     ops_before = len(x._ops)
     g_before = x.grad.copy()
@@ -213,6 +230,7 @@ def probe(model, where):
     if x.grad is None or not np.array_equal(x.grad, g_before) or y.grad is not None:
         raise Mismatch(where, "backward() did something under no_autodiff")
     # an int tensor may be produced without complaint; complex too (no dtype gate when not tracking)
+    check(model, where)
     return
 
 
@@ -232,6 +250,29 @@ def make_fixture():
     FIX.src1, FIX.src2 = mg.tensor([1.0, 2.0]), mg.tensor([3.0, 4.0])
     FIX.cgraph = mg.multiply(FIX.src1, 2.0, constant=True)
     FIX.ngraph = FIX.src2 * 3.0
+    FIX.pool = []
+    FIX.refills = 0
+    refill_pool()
+    # Python-scalar operands with tensors of non-default dtypes: the untracked path must resolve dtypes like the tracked one
+    x32, x16, i8 = mg.tensor([0.5, -1.5, 2.0], dtype="float32"), mg.tensor([0.5, -1.5, 2.0], dtype="float16"), mg.tensor([1, -2, 3], dtype="int8")
+    FIX.battery_src = (x32, x16, i8)
+    fns = [lambda: x32 * 0.1, lambda: 2.0 + x16, lambda: i8 + 3, lambda: x32 ** 2, lambda: mg.maximum(x16, 1), lambda: i8 * 2.5, lambda: mg.exp(x32), lambda: x32.sum()]
+    FIX.battery = []
+    for fn in fns:
+        r = fn()
+        r.clear_graph()
+        FIX.battery.append((fn, r))
+
+
+def refill_pool():
+    """(called with the default settings in force) views of a base holding a gradient, recorded while tracking, never yet asked for .grad"""
+    import mygrad as mg
+
+    if FIX.refills % 64 == 0:
+        FIX.vb = mg.tensor([0.5, -1.5, 2.0, 4.0])
+        (FIX.vb * 3.0).sum().backward()
+    FIX.refills += 1
+    FIX.pool += [FIX.vb[1:] for _ in range(32)]
 
 
 MGR = {}
@@ -333,6 +374,8 @@ def run_program(block):
     base.reset_mygrad()
     model = M()
     EARLY_FUNCS.clear()
+    if len(FIX.pool) < 8:
+        refill_pool()
     predecorate(block)
     try:
         try:
@@ -361,7 +404,83 @@ def all_programs(n, nred, nearly=0):
         yield from REDUCED.iter_blocks(nred)
 
 
+# ------------------------------------------------------------------ value preservation over the op catalogue
+def w_compare(f_mg, f_np, f_mg_again=None):
+    """stand-in for C03.compare: tracked call vs the same call (fresh operands) inside `with no_autodiff` and through the decorator form"""
+    import mygrad as mg
+    import mygrad._utils.graph_tracking as _t
+    from harness import C03
+
+    if f_mg_again is None:
+        return ("skip", "no second thunk")
+    rt = C03.call(f_mg)
+    for mode in ("with", "decorator"):
+        if mode == "with":
+            with mg.no_autodiff:
+                ru = C03.call(f_mg_again)
+        else:
+            ru = mg.no_autodiff(lambda: C03.call(f_mg_again))()
+        if _t.TRACK_GRAPH is not True:
+            return ("switch", "TRACK_GRAPH is %r after leaving the scope (%s form)" % (_t.TRACK_GRAPH, mode))
+        if (rt[0] == "err") != (ru[0] == "err"):
+            return ("untracked_differs", "%s form: tracked call %s, untracked call %s" % (mode, rt[:2] if rt[0] == "err" else "succeeds", ru[:2] if ru[0] == "err" else "succeeds"))
+        if rt[0] == "err":
+            continue
+        d = C03.same(ru[1], rt[1].data if isinstance(rt[1], mg.Tensor) else rt[1])
+        if d is not None:
+            return ("untracked_" + d[0], "%s form: %s" % (mode, d[1].replace("mygrad", "under no_autodiff").replace("numpy", "with tracking")))
+        outs = ru[1] if isinstance(ru[1], tuple) else (ru[1],)
+        for o in outs:
+            if isinstance(o, mg.Tensor) and (o.creator is not None or o.base is not None):
+                return ("untracked_records", "%s form: the result has a creator or base" % mode)
+    return None
+
+
+def w_cells(tier):
+    from harness import C03
+
+    for cell in C03.cells("quick"):
+        if cell[0] in ("SEQ", "SQ", "O"):
+            continue  # (cells whose C03 comparison has no untracked variant)
+        if any(isinstance(c, str) and ("noout" in c or c.startswith("out+") or c in ("where", "out") or c.startswith("where+")) for c in cell):
+            continue  # out= targets are C15's in-place clause (probe); C03's masked cells compare partially initialised arrays
+        yield cell
+
+
+def w_check(cell):
+    from harness import C03
+
+    saved = C03.compare
+    C03.compare = w_compare
+    try:
+        return C03.check(cell)
+    finally:
+        C03.compare = saved
+
+
+def run_w_task(task):
+    _, stride, offset, tier = task
+    base.reset_mygrad()
+    acc = base.Acc()
+    for cell in itertools.islice(w_cells(tier), offset, None, stride):
+        r = w_check(cell)
+        acc.inc("evaluations")
+        if r is not None and r[0] == "skip":
+            acc.outcome("skip:" + r[1][:40])
+            continue
+        acc.inc("traces")
+        acc.nontrivial.add(base.stable_hash(cell))
+        if r is not None:
+            acc.violation({"case": {"wcell": cell}, "failure": (0, ("catalogue cell",), r[0], "", r[1])})
+            acc.outcome("fail:" + r[0])
+        else:
+            acc.outcome("ok:catalogue")
+    return acc
+
+
 def run_task(task):
+    if task[0] == "W":
+        return run_w_task(task)
     n, nred, nearly, stride, offset, seed = task
     import mygrad as mg
 
@@ -394,11 +513,12 @@ def plan(tier, seed):
     total = sum(FULL.count(k) for k in range(n + 1))
     tred = REDUCED.count(nred) if nred else 0
     return dict(
-        tasks=[(n, nred, nearly, stride, o, seed) for o in range(stride)],
+        tasks=[(n, nred, nearly, stride, o, seed) for o in range(stride)] + [("W", 32, o, tier) for o in range(32)],
         run=run_task,
         rule="all block-structured programs with <= %d nodes (%d programs) over with/decorator/try/raise/turn_on/turn_off/probe x 3 managers"
         "%s; states = distinct (TRACK_GRAPH, MEM_GUARD, depth) model states; transitions = comparisons of the real switches with the stack "
-        "model; non-trivial = program combining a scope with a raise or turn_* call"
+        "model; non-trivial = program combining a scope with a raise or turn_* call; plus every cell of C03's op catalogue (ufuncs x dtypes x Python scalars, "
+        "operators' special exponents, reductions, manipulation, indexing, linalg) run tracked and, with fresh operands, inside `with no_autodiff` and through the decorator: equal values, dtype, shape, no creator/base"
         % (n, total, (" plus all programs with exactly %d nodes (%d) without decorators and probes" % (nred, tred)) if nred else ""),
         bounds={"max_nodes_full": n, "programs_full": total, "nodes_reduced": nred, "programs_reduced": tred, "max_nodes_early_decoration": nearly},
         samples=["\n".join(render(FULL.blocks(3)[50]))],
@@ -411,7 +531,12 @@ def plan(tier, seed):
 
 def replay(case):
     import mygrad as mg
+    from mc.hist import tuplify
 
+    if "wcell" in case:
+        base.reset_mygrad()
+        r = w_check(tuplify(case["wcell"]))
+        return [dict(failure=r)] if r is not None and r[0] != "skip" else []
     MGR.update(no_autodiff=mg.no_autodiff, mem_guard_on=mg.mem_guard_on, mem_guard_off=mg.mem_guard_off, mg=mg)
     make_fixture()
 
@@ -424,6 +549,14 @@ def replay(case):
 
 
 def finalize(v):
+    if "wcell" in v["case"]:
+        r = replay(v["case"])
+        if not r:
+            return None
+        f = r[0]["failure"]
+        cell = v["case"]["wcell"]
+        return dict(case={"wcell": cell}, failure=dict(kind=f[0], detail=f[1]), script="# op-catalogue cell %r (see harness/C03.py for its meaning), tracked vs no_autodiff\n# %s: %s\n" % (cell, f[0], f[1]),
+                    signature=base.stable_hash((str(cell[0]), str(cell[1]), f[0], f[1][:30])))
     b = v["case"]["program"]
     r = replay({"program": b})
     if not r:
